@@ -242,7 +242,7 @@ CHECKS = {
     "C19": dict(
         level="exploration",
         rule=("DecisionTable (exhaustive product, in process on web.Handler.Authn / Login via httptest): {disable_authn} x {enable_loopback_authn} x {configured, generated password} x 15 remote addresses (IPv4/IPv6 loopback incl. IPv4-mapped, private, public, malformed, without port, empty, host name) x 7 cookie states "
-              "(none, garbage, empty, other cookie name, minted by this handler, truncated, minted by another handler instance) x 7 HTTP methods; plus login attempts {right, empty, prefix, longer, trailing NUL, other case, leading space, wrong, 200 bytes} x 2 addresses x {POST, GET, PUT}. "
+              "(none, garbage, empty, other cookie name, minted by this handler, truncated, minted by another handler instance) x 7 HTTP methods x 5 sets of client-controlled address headers (none, X-Forwarded-For loopback / list, X-Real-Ip + Forwarded, X-Forwarded-Host); plus login attempts {right, empty, prefix, longer, trailing NUL, other case, leading space, wrong, 200 bytes} x 2 addresses x {POST, GET, PUT}, and on a handler whose login page was never rendered: 5 wrong POST bodies (empty password, no field, other field, NUL) x 3 addresses as the very first requests. "
               "Oracle: the wrapped handler runs iff authentication is disabled, or the address is loopback and loopback authentication is not enforced, or the cookie was issued by a successful login to this handler; otherwise 3xx to /login and the handler does not run; a session is issued iff the method is POST and the password is right. "
               "Binary: cmd/shovel is built and started against the fake Postgres with enable_loopback_authn; each of the five protected routes (GET and POST) must redirect to /login without a session and must not touch the database, the unprotected routes are served, login works and opens /add-source. non-trivial = the address or the session decides (authentication not disabled)."),
         exhaustive_keys=["DecisionTable:exhaustive_decision_table"],
